@@ -22,6 +22,10 @@ func ruleBTSentinel(c *Ctx) {
 	if !c.Anchor(ct != nil && bfn != nil, "record codec and its builder") {
 		return
 	}
+	_, offName, codecName := recordFieldRoles(P)
+	if !c.Anchor(offName != "", "record field entry type (one Codec field, one uintptr offset)") {
+		return
+	}
 	// the sentinel the builder stores
 	var stored constant.Value
 	for _, b := range bfn.Blocks {
@@ -31,7 +35,7 @@ func ruleBTSentinel(c *Ctx) {
 				continue
 			}
 			fa, ok := st.Addr.(*ssa.FieldAddr)
-			if !ok || fieldName(fa.X.Type(), fa.Field) != "offset" {
+			if !ok || fieldName(fa.X.Type(), fa.Field) != offName {
 				continue
 			}
 			for _, s := range phiSources(st.Val) {
@@ -49,7 +53,7 @@ func ruleBTSentinel(c *Ctx) {
 	for _, b := range rd.Blocks {
 		if i, ok := b.Instrs[len(b.Instrs)-1].(*ssa.If); ok {
 			if cmp, ok := asCmp(i.Cond, true); ok && cmp.Op == token.EQL {
-				if k, isK := cmp.Y.(*ssa.Const); isK && strings.HasSuffix(accessPath(cmp.X), ".offset)") || isK && strings.Contains(accessPath(cmp.X), "offset") {
+				if k, isK := cmp.Y.(*ssa.Const); isK && strings.HasSuffix(accessPath(cmp.X), "."+offName+")") || isK && (strings.Contains(accessPath(cmp.X), "."+offName) || strings.Contains(accessPath(cmp.X), ">"+offName)) {
 					if v, ok := (Folder{P}).Fold(k); ok {
 						tested, iff = v, i
 					}
@@ -82,11 +86,11 @@ func ruleBTSentinel(c *Ctx) {
 				}
 				switch call.Call.Method.Name() {
 				case want:
-					if elem(call.Call.Value) == "fields[].codec" && x == blk {
+					if strings.HasSuffix(elem(call.Call.Value), "[]."+codecName) && x == blk {
 						found = true
 						if want == "Read" {
 							add, ok := call.Call.Args[1].(*ssa.Call)
-							if !ok || elem(add.Call.Args[1]) != "fields[].offset" || add.Call.Args[0] != ssa.Value(rd.Params[len(rd.Params)-1]) {
+							if !ok || !strings.HasSuffix(elem(add.Call.Args[1]), "[]."+offName) || add.Call.Args[0] != ssa.Value(rd.Params[len(rd.Params)-1]) {
 								return false, "the field is decoded at an address other than p + its own offset"
 							}
 						}
